@@ -17,8 +17,10 @@ CONSTANTS Kinds,            \* subset of {"rm", "rcm"}
           MaxClose,         \* Close calls
           GraceTicks, MaxT, \* grace period and horizon, in ticks
           RClasses, CClasses,  \* results a runner / closer may return
-          AtomicAddCloser,  \* TRUE: model of a repaired AddCloser (closing checked under the lock);
-                            \* FALSE: closer.go:111-117 as written (checked before taking the lock)
+          AtomicAddCloser,  \* TRUE: AddCloser as repaired (closing checked before AND again under the lock);
+                            \* FALSE: as first written (checked only before taking the lock)
+          Monitor,          \* TRUE: every visible step feeds the contract monitor c (exhaustive checking);
+                            \* FALSE: c is left alone (trace validation of this model against the code)
           Defect            \* "none" | "errsEarly" | "releaseLate" | "filterCtxErr" | "closersEarly" | "noWaitClose"
                             \* | "addNoOuterCheck" (RunnerCloserManager.Add without its own running check)
 
@@ -26,7 +28,7 @@ VARIABLES kind, nr, nc, grace,                  \* configuration
           now,
           running, closing, closeCh, stopped, closeFS, lockRun,  \* closer.go:54-59 (closed is subsumed by closeCh)
           pcan, ctx,                            \* parent context cancelled; inner manager's context cancelled
-          mrunning, rl, apr,                    \* inner manager: running flag, runners slice (ids); Add call: idle | passed | done
+          mrunning, rl, apr,                    \* inner manager: running flag, runners slice (ids); Add in flight: 0 | id that passed the checks
           rpc, hpc, icnt, ierrs,                \* runner goroutines, hidden closeCh runner, results collected (runner.go:87-94)
           opc, runid, nearly, nloop,            \* Run: idle | inner | lockwait | collect | done
           regs,                                 \* c.closers (ids of user closers, in order)
@@ -38,8 +40,9 @@ vars == <<kind, nr, nc, grace, now, running, closing, closeCh, stopped, closeFS,
           rpc, hpc, icnt, ierrs, opc, runid, nearly, nloop, regs, cpc, cres, gpc, garm, ccnt, cerrs,
           retErr, apc, kpc, nrun, c>>
 
-RECURSIVE Feed(_, _)
-Feed(cc, evs) == IF evs = <<>> THEN cc ELSE Feed(CNext(cc, Head(evs)), Tail(evs))
+RECURSIVE FeedAll(_, _)
+FeedAll(cc, evs) == IF evs = <<>> THEN cc ELSE FeedAll(CNext(cc, Head(evs)), Tail(evs))
+Feed(cc, evs) == IF Monitor THEN FeedAll(cc, evs) ELSE cc
 
 RId == <<"r1", "r2", "r3", "r4", "r5">>
 DId == <<"d1", "d2", "d3", "d4", "d5">>
@@ -51,7 +54,7 @@ Hidden == hpc # "none"                           \* closer.go:161-170: decided w
 NInner == Len(rl) + (IF Hidden THEN 1 ELSE 0)    \* runner.go: len(r.runners), re-read by the collection loop
 Extra == nr + 1                                  \* the runner offered to Add after Run / Close
 GraceN == IF grace THEN 1 ELSE 0
-LateIds == (nc + 1)..(nc + MaxLate)
+LateIds == DOMAIN apc                            \* closers offered through AddCloser calls of the behaviour
 E(name) == [ev |-> name, now |-> now]
 
 Init ==
@@ -62,14 +65,14 @@ Init ==
   /\ now = 0
   /\ running = FALSE /\ closing = FALSE /\ closeCh = FALSE /\ stopped = FALSE /\ closeFS = FALSE /\ lockRun = FALSE
   /\ pcan = FALSE /\ ctx = FALSE
-  /\ mrunning = FALSE /\ rl = [i \in 1..nr |-> i] /\ apr = "idle"
+  /\ mrunning = FALSE /\ rl = [i \in 1..nr |-> i] /\ apr = 0
   /\ rpc = [i \in 1..(nr + 1) |-> "idle"] /\ hpc = "none" /\ icnt = 0 /\ ierrs = <<>>
   /\ opc = "idle" /\ runid = 0 /\ nearly = 0 /\ nloop = 0
   /\ regs = [j \in 1..nc |-> j]
   /\ cpc = [j \in 1..(nc + MaxLate) |-> "idle"] /\ cres = [j \in 1..(nc + MaxLate) |-> ""]
   /\ gpc = "none" /\ garm = 0 /\ ccnt = 0 /\ cerrs = <<>>
   /\ retErr = <<>>
-  /\ apc = [j \in LateIds |-> "idle"]
+  /\ apc = [j \in (nc + 1)..(nc + MaxLate) |-> "idle"]
   /\ kpc = [k \in 1..MaxClose |-> "idle"]
   /\ nrun = 0
   /\ c = Feed(CReset([kind |-> kind, G |-> IF grace THEN GraceTicks ELSE -1, pdl |-> -1,
@@ -126,15 +129,16 @@ SeesCancel(i) ==
 Reported(cl) == cl \in {"err", "deadline"} \/ (Defect = "filterCtxErr" /\ ~ctx /\ cl \in {"canceled", "wcanceled"})
 RErrId(i, cl) == CASE cl = "err" -> RId[i] [] cl = "deadline" -> DId[i] [] cl = "wcanceled" -> WId[i]
                    [] cl = "canceled" -> "canceled" [] OTHER -> ""
-Release(i, cl) ==
+ReleaseId(i, cl, id) ==
   /\ rpc[i] \in {"run", "seen"}
   /\ rpc' = [rpc EXCEPT ![i] = "done"]
   /\ icnt' = icnt + 1
-  /\ ierrs' = IF Reported(cl) THEN Append(ierrs, RErrId(i, cl)) ELSE ierrs
+  /\ ierrs' = IF Reported(cl) THEN Append(ierrs, id) ELSE ierrs
   /\ ctx' = TRUE
-  /\ c' = Feed(c, <<E("runnerreturn") @@ [i |-> i, class |-> cl, id |-> IF cl = "canceled" THEN "" ELSE RErrId(i, cl)]>>)
+  /\ c' = Feed(c, <<E("runnerreturn") @@ [i |-> i, class |-> cl, id |-> IF cl = "canceled" THEN "" ELSE id]>>)
   /\ UNCHANGED <<kind, nr, nc, grace, mrunning, rl, apr, now, running, closing, closeCh, stopped, closeFS, lockRun, pcan, hpc,
                  opc, runid, nearly, nloop, regs, cpc, cres, gpc, garm, ccnt, cerrs, retErr, apc, kpc, nrun>>
+Release(i, cl) == ReleaseId(i, cl, RErrId(i, cl))
 
 (* closer.go:157-163 *)
 HiddenRet ==
@@ -171,13 +175,14 @@ CloserBegin(j) ==
                  opc, runid, nearly, nloop, regs, cres, gpc, garm, ccnt, cerrs, retErr, apc, kpc, nrun>>
 
 CErrId(j, cl) == CASE cl = "err" -> KId[j] [] cl = "kcanceled" -> KCId[j] [] OTHER -> ""
-CloserRelease(j, cl) ==
+CloserReleaseId(j, cl, id) ==
   /\ cpc[j] = "run"
   /\ cpc' = [cpc EXCEPT ![j] = "sent"]
-  /\ cres' = [cres EXCEPT ![j] = CErrId(j, cl)]
-  /\ c' = Feed(c, <<E("closerreturn") @@ [j |-> j, class |-> cl, id |-> CErrId(j, cl)]>>)
+  /\ cres' = [cres EXCEPT ![j] = id]
+  /\ c' = Feed(c, <<E("closerreturn") @@ [j |-> j, class |-> cl, id |-> id]>>)
   /\ UNCHANGED <<kind, nr, nc, grace, mrunning, rl, apr, now, running, closing, closeCh, stopped, closeFS, lockRun, pcan, ctx, rpc, hpc, icnt, ierrs,
                  opc, runid, nearly, nloop, regs, gpc, garm, ccnt, cerrs, retErr, apc, kpc, nrun>>
+CloserRelease(j, cl) == CloserReleaseId(j, cl, CErrId(j, cl))
 
 (* the grace-period closer - closer.go:83-94 *)
 GraceBegin ==
@@ -214,22 +219,24 @@ RecvGrace ==
   /\ gpc' = "done" /\ ccnt' = ccnt + 1
   /\ UNCHANGED <<kind, nr, nc, grace, mrunning, rl, apr, now, running, closing, closeCh, stopped, closeFS, lockRun, pcan, ctx, rpc, hpc, icnt, ierrs,
                  opc, runid, nearly, nloop, regs, cpc, cres, garm, cerrs, retErr, apc, kpc, nrun, c>>
-(* closer.go:196-198 and the deferred unlock / close(stopped) *)
+(* closer.go: retErr is set, then the deferred unlock and close(stopped) run; only after that has Run returned to its *)
+(* caller - an AddCloser waiting for the lock or a Close waiting on stopped may get ahead of that                      *)
 Finish ==
   /\ opc = "collect" /\ ccnt = nloop
-  /\ opc' = "done" /\ retErr' = ierrs \o cerrs /\ lockRun' = FALSE /\ stopped' = TRUE
-  /\ c' = Feed(c, <<E("runreturn") @@ [id |-> runid, rejected |-> FALSE, errs |-> ierrs \o cerrs]>>)
+  /\ opc' = "ret" /\ retErr' = ierrs \o cerrs /\ lockRun' = FALSE /\ stopped' = TRUE
   /\ UNCHANGED <<kind, nr, nc, grace, mrunning, rl, apr, now, running, closing, closeCh, closeFS, pcan, ctx, rpc, hpc, icnt, ierrs,
-                 runid, nearly, nloop, regs, cpc, cres, gpc, garm, ccnt, cerrs, apc, kpc, nrun>>
+                 runid, nearly, nloop, regs, cpc, cres, gpc, garm, ccnt, cerrs, apc, kpc, nrun, c>>
+RunRet ==
+  /\ opc = "ret" /\ opc' = "done"
+  /\ c' = Feed(c, <<E("runreturn") @@ [id |-> runid, rejected |-> FALSE, errs |-> retErr]>>)
+  /\ UNCHANGED <<kind, nr, nc, grace, mrunning, rl, apr, now, running, closing, closeCh, stopped, closeFS, lockRun, pcan, ctx, rpc, hpc, icnt, ierrs,
+                 runid, nearly, nloop, regs, cpc, cres, gpc, garm, ccnt, cerrs, retErr, apc, kpc, nrun>>
 
-(* AddCloser - closer.go:110-143 *)
+(* AddCloser - closer.go: the closing flag is looked at before taking the lock (the verif point addcloser.afterCheck *)
+(* sits right after that look) and, in the repaired code, once more under the lock                                  *)
 AddCloserCall(j) ==
   /\ kind = "rcm" /\ apc[j] = "idle"
-  /\ \A x \in LateIds : x < j => apc[x] # "idle"
-  /\ IF AtomicAddCloser THEN
-       /\ apc' = [apc EXCEPT ![j] = "wait"]
-       /\ c' = Feed(c, <<E("addcloser.call") @@ [j |-> j]>>)
-     ELSE IF closing THEN
+  /\ IF closing THEN
        /\ apc' = [apc EXCEPT ![j] = "done"]
        /\ c' = Feed(c, <<E("addcloser.call") @@ [j |-> j], E("addcloser.ret") @@ [j |-> j, ok |-> FALSE]>>)
      ELSE
@@ -238,9 +245,9 @@ AddCloserCall(j) ==
   /\ UNCHANGED <<kind, nr, nc, grace, mrunning, rl, apr, now, running, closing, closeCh, stopped, closeFS, lockRun, pcan, ctx, rpc, hpc, icnt, ierrs,
                  opc, runid, nearly, nloop, regs, cpc, cres, gpc, garm, ccnt, cerrs, retErr, kpc, nrun>>
 AddCloserFinish(j) ==
-  /\ apc[j] \in {"wait", "passed"} /\ ~lockRun
+  /\ apc[j] = "passed" /\ ~lockRun
   /\ apc' = [apc EXCEPT ![j] = "done"]
-  /\ IF apc[j] = "wait" /\ closing
+  /\ IF AtomicAddCloser /\ closing
        THEN /\ c' = Feed(c, <<E("addcloser.ret") @@ [j |-> j, ok |-> FALSE]>>) /\ regs' = regs
        ELSE /\ c' = Feed(c, <<E("addcloser.ret") @@ [j |-> j, ok |-> TRUE]>>) /\ regs' = Append(regs, j)
   /\ UNCHANGED <<kind, nr, nc, grace, mrunning, rl, apr, now, running, closing, closeCh, stopped, closeFS, lockRun, pcan, ctx, rpc, hpc, icnt, ierrs,
@@ -249,7 +256,6 @@ AddCloserFinish(j) ==
 (* Close - closer.go:202-212 *)
 CloseCall(k) ==
   /\ kind = "rcm" /\ kpc[k] = "idle"
-  /\ \A x \in 1..MaxClose : x < k => kpc[x] # "idle"
   /\ kpc' = [kpc EXCEPT ![k] = "wait"]
   /\ closeCh' = TRUE
   /\ running' = TRUE
@@ -264,55 +270,62 @@ CloseRet(k) ==
   /\ UNCHANGED <<kind, nr, nc, grace, mrunning, rl, apr, now, running, closing, closeCh, stopped, closeFS, lockRun, pcan, ctx, rpc, hpc, icnt, ierrs,
                  opc, runid, nearly, nloop, regs, cpc, cres, gpc, garm, ccnt, cerrs, retErr, apc, nrun>>
 
-(* Add on a manager that was started (or closed) - closer.go:100-106 then runner.go:45-53: the closer manager's    *)
-(* own check, the inner manager's check, then the append under the lock.  A rejected call leaves the model state   *)
-(* unchanged (the step only shows the event to the monitor).                                                       *)
-AddRunnerCall ==
-  /\ running /\ apr = "idle"
-  /\ IF (kind = "rcm" /\ Defect # "addNoOuterCheck") \/ mrunning
-       THEN /\ c' = Feed(c, <<E("addrunner") @@ [i |-> Extra, ok |-> FALSE]>>) /\ apr' = apr
-       ELSE /\ apr' = "passed" /\ c' = c
+(* Add - closer.go:100-106 then runner.go:45-53: the closer manager's own check, the inner manager's check, then    *)
+(* the append under the lock.  A rejected call leaves the model state unchanged (the step only shows the event to   *)
+(* the monitor).                                                                                                    *)
+AddRunnerCall(i) ==
+  /\ apr = 0 /\ rpc[i] = "idle" /\ \A x \in DOMAIN rl : rl[x] # i
+  /\ IF (kind = "rcm" /\ Defect # "addNoOuterCheck" /\ running) \/ mrunning
+       THEN /\ c' = Feed(c, <<E("addrunner") @@ [i |-> i, ok |-> FALSE]>>) /\ apr' = apr
+       ELSE /\ apr' = i /\ c' = c
   /\ UNCHANGED <<kind, nr, nc, grace, mrunning, rl, now, running, closing, closeCh, stopped, closeFS, lockRun, pcan, ctx, rpc, hpc, icnt, ierrs,
                  opc, runid, nearly, nloop, regs, cpc, cres, gpc, garm, ccnt, cerrs, retErr, apc, kpc, nrun>>
 AddRunnerFinish ==
-  /\ apr = "passed" /\ ~lockRun
-  /\ apr' = "done" /\ rl' = Append(rl, Extra)
-  /\ c' = Feed(c, <<E("addrunner") @@ [i |-> Extra, ok |-> TRUE]>>)
+  /\ apr # 0 /\ ~lockRun
+  /\ apr' = 0 /\ rl' = Append(rl, apr)
+  /\ c' = Feed(c, <<E("addrunner") @@ [i |-> apr, ok |-> TRUE]>>)
   /\ UNCHANGED <<kind, nr, nc, grace, mrunning, now, running, closing, closeCh, stopped, closeFS, lockRun, pcan, ctx, rpc, hpc, icnt, ierrs,
                  opc, runid, nearly, nloop, regs, cpc, cres, gpc, garm, ccnt, cerrs, retErr, apc, kpc, nrun>>
 
+(* the context given to Run ends; the inner manager's context is derived from it once that manager runs *)
 ParentCancel ==
-  /\ ~pcan /\ opc \in {"idle", "spawn", "inner"} /\ nr > 0
-  /\ pcan' = TRUE /\ ctx' = (ctx \/ opc = "inner")
+  /\ ~pcan
+  /\ pcan' = TRUE /\ ctx' = (ctx \/ mrunning)
   /\ c' = Feed(c, <<E("parentcancel")>>)
   /\ UNCHANGED <<kind, nr, nc, grace, mrunning, rl, apr, now, running, closing, closeCh, stopped, closeFS, lockRun, rpc, hpc, icnt, ierrs,
                  opc, runid, nearly, nloop, regs, cpc, cres, gpc, garm, ccnt, cerrs, retErr, apc, kpc, nrun>>
 
-Internal ==
+(* steps the manager takes on its own; hj: an AddCloser call the harness holds at addcloser.afterCheck (0: none) *)
+InternalExcept(hj) ==
   \/ \E i \in DOMAIN rpc : RunnerBegin(i) \/ SeesCancel(i)
   \/ InnerStart \/ AddRunnerFinish
   \/ HiddenRet \/ InnerDoneRM \/ StartClosing
   \/ \E j \in DOMAIN cpc : CloserBegin(j) \/ Recv(j)
-  \/ GraceBegin \/ GraceFire \/ GraceRelease \/ CloseFSAct \/ RecvGrace \/ Finish
-  \/ \E j \in LateIds : AddCloserFinish(j)
-  \/ \E k \in 1..MaxClose : CloseRet(k)
+  \/ GraceBegin \/ GraceFire \/ GraceRelease \/ CloseFSAct \/ RecvGrace \/ Finish \/ RunRet
+  \/ \E j \in LateIds \ {hj} : AddCloserFinish(j)
+  \/ \E k \in DOMAIN kpc : CloseRet(k)
+Internal == InternalExcept(0)
 
+(* the environment of the exhaustive check: to keep the state space small, AddCloser and Close calls are issued in *)
+(* the order of their ids, Add is tried with one extra runner once the manager was started or closed, and the       *)
+(* parent context is cancelled only while that can matter                                                           *)
 Env ==
   \/ RunCall
   \/ \E i \in DOMAIN rpc, cl \in RClasses : Release(i, cl)
   \/ \E j \in DOMAIN cpc, cl \in CClasses : CloserRelease(j, cl)
-  \/ \E j \in LateIds : AddCloserCall(j)
-  \/ \E k \in 1..MaxClose : CloseCall(k)
-  \/ AddRunnerCall \/ ParentCancel
+  \/ \E j \in LateIds : (\A x \in LateIds : x < j => apc[x] # "idle") /\ AddCloserCall(j)
+  \/ \E k \in DOMAIN kpc : (\A x \in DOMAIN kpc : x < k => kpc[x] # "idle") /\ CloseCall(k)
+  \/ (running /\ AddRunnerCall(Extra))
+  \/ (opc \in {"idle", "spawn", "inner"} /\ nr > 0 /\ ParentCancel)
 
 Quiescent == ~ENABLED Internal
 
 (* virtual time advances only when nothing can move (testing/synctest) *)
-Tick ==
-  /\ Quiescent /\ gpc = "timing" /\ now < MaxT
-  /\ now' = now + 1
+Advance(t) ==
+  /\ now' = t
   /\ UNCHANGED <<kind, nr, nc, grace, mrunning, rl, apr, running, closing, closeCh, stopped, closeFS, lockRun, pcan, ctx, rpc, hpc, icnt, ierrs,
                  opc, runid, nearly, nloop, regs, cpc, cres, gpc, garm, ccnt, cerrs, retErr, apc, kpc, nrun, c>>
+Tick == Quiescent /\ gpc = "timing" /\ now < MaxT /\ Advance(now + 1)
 
 Quiesce ==
   /\ Quiescent
@@ -326,5 +339,5 @@ Spec == Init /\ [][Next]_vars
 NotBad == ~IsBad(c)
 (* the same laws stated directly on the model state *)
 ClosersAfterRunners == (\E j \in DOMAIN cpc : cpc[j] # "idle") => \A x \in DOMAIN rl : rpc[rl[x]] = "done"
-StoppedLast == stopped /\ opc = "done" => (\A j \in DOMAIN regs : cpc[regs[j]] = "done") /\ gpc \in {"none", "done"}
+StoppedLast == stopped /\ opc \in {"ret", "done"} => (\A j \in DOMAIN regs : cpc[regs[j]] = "done") /\ gpc \in {"none", "done"}
 =============================================================================
